@@ -57,24 +57,76 @@ var reflTable = map[string]reflReq{
 // other site (new or moved to another function) is still reported.
 var reflAssumed = map[string]string{}
 
-func (c *Ctx) kindIn(fa *FnAnalysis, s *State, vt *Term, kinds []int64) bool {
-	kt := c.eng.tt.mk(Term{K: "KIND", A: vt})
-	for _, k := range kinds {
-		if v, ok := fa.knownTerm(s, aTR, c.eng.tt.mk(Term{K: "B", S: "==", A: c.intConst(k), B: kt})); ok && v {
-			return true
-		}
+func kindInKind(kinds []int64) string {
+	ks := append([]int64{}, kinds...)
+	sort.Slice(ks, func(i, j int) bool { return ks[i] < ks[j] })
+	var ss []string
+	for _, k := range ks {
+		ss = append(ss, fmt.Sprint(k))
 	}
-	return false
+	return "kindin:" + strings.Join(ss, ",")
 }
 
-func (c *Ctx) ruleRefl(rule string, scope []*ssa.Function) {
-	rep := c.rep
-	if scope == nil {
-		scope = c.p.Funcs
+// canifOK: the receiver of Interface() is readable.  Values are readable
+// unless they derive from Value.Field(); rule R-CANIF guarantees that no
+// Field()-derived Value leaves its function (or reaches another use) without
+// a CanInterface() test, so only the local derivation has to be examined.
+func (c *Ctx) canifOK(fa *FnAnalysis, s *State, v ssa.Value) bool {
+	seen := map[ssa.Value]bool{}
+	var walk func(v ssa.Value) bool
+	walk = func(v ssa.Value) bool {
+		if v == nil || seen[v] {
+			return true
+		}
+		seen[v] = true
+		if ok, known := fa.knownTerm(s, aCANIF, fa.term(s, v)); known && ok {
+			return true
+		}
+		switch x := v.(type) {
+		case *ssa.Call:
+			cal := x.Call.StaticCallee()
+			if cal == nil {
+				return true
+			}
+			switch cal.String() {
+			case "(reflect.Value).Field", "(reflect.Value).FieldByName":
+				return false
+			case "(reflect.Value).Elem", "(reflect.Value).Index", "(reflect.Value).MapIndex", "(reflect.Value).Convert", "(reflect.Value).Slice":
+				return walk(x.Call.Args[0])
+			case "(reflect.Value).MethodByName":
+				// an exported method of a readable value
+				if k, ok := x.Call.Args[1].(*ssa.Const); ok && len(constString(k)) > 2 {
+					name := strings.Trim(constString(k), "\"`")
+					if name != "" && name[0] >= 'A' && name[0] <= 'Z' {
+						return walk(x.Call.Args[0])
+					}
+				}
+				return false
+			}
+			return true
+		case *ssa.Phi:
+			for _, e := range x.Edges {
+				if !walk(e) {
+					return false
+				}
+			}
+			return true
+		case *ssa.Extract:
+			return true
+		case *ssa.UnOp:
+			return walk(x.X)
+		}
+		return true
 	}
-	c.forallPredicates()
-	total := 0
-	for _, fn := range scope {
+	return walk(v)
+}
+
+// ruleCanif (R-CANIF): a Value obtained from Field() is used for nothing but
+// CanInterface()/IsValid()/Kind() until CanInterface() returned true.
+func (c *Ctx) ruleCanif() {
+	rep := c.rep
+	n := 0
+	for _, fn := range c.p.Funcs {
 		var fa *FnAnalysis
 		ord := newOrdinal()
 		for _, b := range fn.Blocks {
@@ -84,58 +136,47 @@ func (c *Ctx) ruleRefl(rule string, scope []*ssa.Function) {
 					continue
 				}
 				cal := call.Call.StaticCallee()
-				if cal == nil {
+				if cal == nil || (cal.String() != "(reflect.Value).Field" && cal.String() != "(reflect.Value).FieldByName") {
 					continue
 				}
-				req, ok := reflTable[cal.String()]
-				if !ok {
-					if strings.HasPrefix(cal.String(), "(reflect.Value).") && !isPureExternal(cal.String()) && !aliasExternal[cal.String()] {
-						rep.undecided(rule, relName(fn), ord.next("call "+cal.String()), c.p.instrPos(in), "reflect.Value method not in the typestate table of the checker")
-					}
-					continue
-				}
-				total++
+				n++
 				if fa == nil {
 					fa = c.eng.analyze(fn, nil)
 				}
-				short := strings.TrimPrefix(cal.String(), "(reflect.Value).")
-				construct := ord.next("Value." + short)
-				pos := c.p.instrPos(in)
-				key := rule + ":" + relName(fn) + ":" + construct
-				recv := call.Call.Args[0]
-				var missing []string
-				for _, s := range fa.statesBefore(in) {
-					vt := fa.term(s, recv)
-					if req.valid {
-						if v, ok := fa.knownTerm(s, aVALID, vt); !ok || !v {
-							missing = append(missing, "validity (IsValid / a non-Invalid Kind) of the receiver")
+				construct := ord.next("Value.Field result")
+				bad := ""
+				for _, u := range *call.Referrers() {
+					ui, ok := u.(ssa.Instruction)
+					if !ok {
+						continue
+					}
+					if uc, ok := u.(*ssa.Call); ok {
+						if cl := uc.Call.StaticCallee(); cl != nil {
+							switch cl.String() {
+							case "(reflect.Value).CanInterface", "(reflect.Value).IsValid", "(reflect.Value).Kind":
+								continue
+							}
 						}
 					}
-					if req.canif {
-						if v, ok := fa.knownTerm(s, aCANIF, vt); !ok || !v {
-							missing = append(missing, "CanInterface() of the receiver")
-						}
+					if _, isDbg := u.(*ssa.DebugRef); isDbg {
+						continue
 					}
-					if len(req.kinds) > 0 && !c.kindIn(fa, s, vt, req.kinds) {
-						missing = append(missing, "a Kind test allowing "+short)
+					if !fa.allHold(ui, func(s *State) bool {
+						v, k := fa.knownTerm(s, aCANIF, fa.term(s, call))
+						return k && v
+					}) {
+						bad = c.p.instrPos(ui)
 					}
 				}
-				if len(missing) == 0 {
-					rep.ok(rule, relName(fn), construct, pos, "the receiver's validity/kind/accessibility is established on every path")
-					continue
+				if bad == "" {
+					rep.ok("R-CANIF", relName(fn), construct, c.p.instrPos(in), "every use other than the accessibility test is dominated by CanInterface()==true")
+				} else {
+					rep.bad("R-CANIF", relName(fn), construct, c.p.instrPos(in), "a struct field Value is used at "+bad+" without a CanInterface() test: unexported fields make Interface() panic")
 				}
-				sort.Strings(missing)
-				missing = uniq(missing)
-				if why, ok := reflAssumed[key]; ok {
-					rep.ok(rule, relName(fn), construct, pos, "ASSUMED: "+why)
-					rep.assume(key + ": " + why)
-					continue
-				}
-				rep.bad(rule, relName(fn), construct, pos, fmt.Sprintf("%s may panic: not dominated by %s", cal.String(), strings.Join(missing, " and ")))
 			}
 		}
 	}
-	rep.Extra[rule+"_sites"] = total
+	rep.Extra["R-CANIF_sites"] = n
 }
 
 // forallPredicates: variadic helpers of the shape
@@ -157,6 +198,21 @@ func (c *Ctx) forallPredicates() {
 			c.rep.Notes = append(c.rep.Notes, fmt.Sprintf("universal predicate recognised: %s(v...) == true  =>  %s for every v", relName(fn), spec.desc))
 		}
 	}
+}
+
+func leadsToIncrement(b *ssa.BasicBlock, inc *ssa.BinOp) bool {
+	for steps := 0; steps < 3; steps++ {
+		for _, in := range b.Instrs {
+			if in == ssa.Instruction(inc) {
+				return true
+			}
+		}
+		if len(b.Succs) != 1 {
+			return false
+		}
+		b = b.Succs[0]
+	}
+	return false
 }
 
 // forallShape recognises the loop shape by facts: every `return true` state
@@ -228,6 +284,49 @@ func (c *Ctx) forallShape(fn *ssa.Function) (forallSpec, bool) {
 		}
 		ia, ok := ld.X.(*ssa.IndexAddr)
 		return ok && ia.X == fn.Params[0] && ia.Index == phi
+	}
+	// kind membership:  if k[i] != A && k[i] != B ... { return false }
+	{
+		var kinds []int64
+		cur := body
+		okShape := true
+		for steps := 0; steps < 8; steps++ {
+			i2, ok := cur.Instrs[len(cur.Instrs)-1].(*ssa.If)
+			if !ok {
+				okShape = false
+				break
+			}
+			ne, ok := i2.Cond.(*ssa.BinOp)
+			if !ok || ne.Op.String() != "!=" || !elemOf(ne.X) {
+				okShape = false
+				break
+			}
+			kv, ok := constIntOf(ne.Y)
+			if !ok {
+				okShape = false
+				break
+			}
+			kinds = append(kinds, kv)
+			// equal -> continue with the next element
+			if !leadsToIncrement(cur.Succs[1], inc) {
+				okShape = false
+				break
+			}
+			nxt := cur.Succs[0]
+			if r, ok := nxt.Instrs[len(nxt.Instrs)-1].(*ssa.Return); ok && len(nxt.Instrs) == 1 {
+				if bv, isC := isBoolConst(r.Results[0]); isC && !bv {
+					break
+				}
+				okShape = false
+				break
+			}
+			cur = nxt
+		}
+		if okShape && len(kinds) > 0 {
+			spec.kind = kindInKind(kinds)
+			spec.desc = "kind in " + strings.TrimPrefix(spec.kind, "kindin:")
+			return spec, true
+		}
 	}
 	if call, ok := cond.(*ssa.Call); ok {
 		if cal := call.Call.StaticCallee(); cal != nil && cal.String() == "(reflect.Value).IsValid" && elemOf(call.Call.Args[0]) {
